@@ -46,7 +46,7 @@ ASSUMPTIONS = [
     "a record made after the landing scope's completion callback already ran is only required not to raise",
     "log-order of the harness (single thread) is the recording order",
 ]
-MINIMUMS = {"same_instance_recorded_again": 300, "monitor:fold": 20000, "monitor:merged-view": 5000, "monitor:never-raises": 20000, "folds_of_3_or_more": 1000, "concurrent_recorders": 500, "records_outside_scope": 200, "records_after_completion": 50, "raising_merges": 500, "synchronous_root_scopes_around_event_loop_runs": 8}
+MINIMUMS = {"same_instance_recorded_again": 300, "monitor:fold": 20000, "monitor:merged-view": 5000, "monitor:never-raises": 20000, "folds_of_3_or_more": 1000, "concurrent_recorders": 500, "records_outside_scope": 200, "records_after_completion": 50, "raising_merges": 500, "synchronous_root_scopes_around_event_loop_runs": 8, "histories_over_metric_types_in_a_subclass_relation": 100, "derived_metric_type_recorded_before_its_base": 50}
 JOBS = {"quick": 4, "thorough": 16}
 LEVEL_TEXT = (
     "Trees of up to 3 nodes (all shapes, kinds, placements) with seeded record layouts are run under every gate-release order (DFS, capped), 4-5 node trees sampled; inside each "
@@ -538,7 +538,78 @@ def run_records_from_worker_threads(R: Recorder, case: dict[str, Any]) -> None:
               detail=f"records made in order 1 (loop thread), 2 (worker thread, loop thread waiting for it){', 3 (loop thread)' if case['variant'] == 'order' else ' - then the scope was left'}: read(Mx) of {scope} = {seen.get(scope)!r}, reference {want!r}", case=case)
 
 
+def run_related_metric_types(R: Recorder, case: dict[str, Any]) -> None:
+    """metric types in a subclass relation (a base, a derived one, a twice derived one; an unspecialised generic and two specialisations)
+    recorded into the same scopes in a seeded order, from the scope's task and from spawned tasks: every type is a metric of its own -
+    a scope's value for T is the fold over the records of exactly T"""
+    from haiway import ctx
+
+    rng = random.Random(case["seed"])
+    names = list(metricsfam.RELATED)
+    seen: dict[str, dict[str, Any]] = {}
+    want: dict[str, dict[str, list[int]]] = {"root": {}, "nested": {}}
+    errors: list[str] = []
+    uid = itertools.count(1)
+
+    def completion(metrics: Any) -> None:
+        try:
+            seen[metrics.label] = {t: (None if (v := metrics.read(T)) is None else (type(v).__name__, tuple(v.ids))) for t, T in metricsfam.RELATED.items()}
+            seen[metrics.label]["listed"] = sorted((type(m).__name__, tuple(m.ids)) for m in metrics.metrics())
+        except BaseException as exc:  # noqa: BLE001
+            errors.append(f"reading in the completion of {metrics.label} raised {exc!r}")
+
+    def rec(scope: str, t: str) -> None:
+        i = next(uid)
+        want[scope].setdefault(t, []).append(i)
+        try:
+            ctx.record(metricsfam.RELATED[t](ids=(i,)), merge=metricsfam.concat_same_type)
+        except BaseException as exc:  # noqa: BLE001
+            errors.append(f"record({t}) raised {exc!r}")
+
+    async def worker(scope: str, t: str) -> None:
+        rec(scope, t)
+
+    async def main() -> None:
+        async with ctx.scope("root", completion=completion):
+            order = [rng.choice(names) for _ in range(rng.randint(4, 9))]
+            async with ctx.scope("nested", completion=completion):
+                for t in order:
+                    if rng.random() < 0.3:
+                        await ctx.spawn(worker, "nested", t)
+                    else:
+                        rec("nested", t)
+            for t in [rng.choice(names) for _ in range(rng.randint(2, 5))]:
+                rec("root", t)
+        for _ in range(5):
+            await asyncio.sleep(0)
+
+    try:
+        asyncio.run(main())
+    except BaseException as exc:  # noqa: BLE001
+        errors.append(f"the program raised {exc!r}")
+    R.case(case, nontrivial=True)
+    R.count("histories_over_metric_types_in_a_subclass_relation")
+    w = {"kind": "related-metric-types"}
+    R.monitor("never-raises", not errors, where={**w, "kind": "record-raised"}, detail=f"{errors}", case=case)
+    for scope in ("root", "nested"):
+        got = seen.get(scope)
+        if got is None:
+            R.monitor("fold", False, where={**w, "kind": "completion-not-invoked"}, detail=f"no completion for {scope}; {errors}", case=case)
+            continue
+        for t, T in metricsfam.RELATED.items():
+            ids = want[scope].get(t)
+            expect = None if ids is None else (T.__name__, tuple(ids))
+            derived_first = ids is not None and any(issubclass(metricsfam.RELATED[o], T) and o != t and min(want[scope][o]) < min(ids) for o in want[scope])
+            R.count("derived_metric_type_recorded_before_its_base", derived_first)
+            R.monitor("fold", got[t] == expect, where={**w, "kind": "value-of-a-related-type" if got[t] is not None and expect is not None else "fold-differs", "type": "generic" if t.startswith("Sized") else "derived-chain"},
+                      detail=f"{scope}: read({t}) = {got[t]!r}, reference (records of exactly that type) {expect!r}; all records {want[scope]}", case=case)
+        listed = sorted((metricsfam.RELATED[t].__name__, tuple(ids)) for t, ids in want[scope].items())
+        R.monitor("merged-view", got["listed"] == listed, where={**w, "kind": "own-values-mismatch"}, detail=f"{scope}: metrics() = {got['listed']!r}, reference {listed!r}", case=case)
+
+
 def run(R: Recorder, tier: str, seed: int, shard: int, nshards: int) -> None:
+    for k in range(shard, {"quick": 120, "thorough": 3000}[tier], nshards):
+        run_related_metric_types(R, {"related_types": True, "seed": f"{seed}/{k}"})
     if shard == 0:
         for variant in ("order", "left-right-after"):
             run_records_from_worker_threads(R, {"worker_thread": True, "variant": variant})
@@ -568,6 +639,9 @@ def run(R: Recorder, tier: str, seed: int, shard: int, nshards: int) -> None:
 
 
 def replay(R: Recorder, rec: dict[str, Any]) -> None:
+    if rec.get("related_types"):
+        run_related_metric_types(R, rec)
+        return
     if rec.get("worker_thread"):
         run_records_from_worker_threads(R, rec)
         return
